@@ -122,6 +122,9 @@ def seeded(props, only, tier_args):
         name = os.path.basename(os.path.dirname(meta))
         if only and only not in name:
             continue
+        if m.get("detected_by_tier") == "thorough" and "thorough" not in tier_args:
+            print("mutant seeded/%-38s skipped (caught by the thorough tier only)" % name, flush=True)
+            continue
         for prop in m.get("detected_by", [m["property"]]):
             if prop not in props:
                 continue
